@@ -16,6 +16,7 @@ RULE = ("A case draws a dimension class of the linear table units, three unit ex
         "1/(x F(u))/F(v); the target also given as the Quantity k*v (result/k); bare numbers to rad/mrad (a NAMED "
         "dimensionless unit such as % is not a bare number and must be refused); pairs of differing non-reciprocal dimension must raise and leave "
         "value/units untouched. Non-trivial: u!=v textually with F(u)!=F(v) and x!=0, or a rejection pair, or a "
+        "Round 4: degR inside compound expressions, as reciprocal, and refused against other powers (strategy rankine). "
         "reciprocal pair. Distinct = distinct case JSON.")
 ASSUMPTIONS = [
     "temperature (Cel, degF) and logarithmic units are excluded here (C05)",
